@@ -120,18 +120,30 @@ def classify(G, model):
     # which constructor parameter plays which role is read off what the constructor does with it, not off its name:
     # the two parameters that become the child list are (left, right) in that order, the remaining one is the operation
     role_be = {}
+    def _list_arg(fn, call):
+        # the child list handed to the base constructor: positional or `children=`, directly or through a local bound once
+        for a_ in list(call.args[:1]) + [k.value for k in call.keywords if k.arg == "children"]:
+            if isinstance(a_, ast.Name):
+                binds = [s.value for s in ast.walk(fn) if isinstance(s, ast.Assign) and len(s.targets) == 1 and isinstance(s.targets[0], ast.Name) and s.targets[0].id == a_.id]
+                a_ = binds[0] if len(binds) == 1 else a_
+            if isinstance(a_, ast.List):
+                return a_
+        return None
+
     for c_ in ast.walk(init):
-        if isinstance(c_, ast.Call) and last_attr(c_) == "__init__" and c_.args and isinstance(c_.args[0], ast.List) and len(c_.args[0].elts) == 2:
-            l_, r_ = c_.args[0].elts
-            if isinstance(l_, ast.Name) and isinstance(r_, ast.Name):
-                role_be[l_.id], role_be[r_.id] = "left", "right"
+        if isinstance(c_, ast.Call) and last_attr(c_) == "__init__":
+            la_ = _list_arg(init, c_)
+            if la_ is not None and len(la_.elts) == 2:
+                l_, r_ = la_.elts
+                if isinstance(l_, ast.Name) and isinstance(r_, ast.Name):
+                    role_be[l_.id], role_be[r_.id] = "left", "right"
     for p_ in params:
         role_be.setdefault(p_, "op")
     ae_init = model.cls("nsl/ast/__init__.py", "AssignmentExpression").own_method("__init__")
     role_ae = {}
     for c_ in ast.walk(ae_init):
-        if isinstance(c_, ast.Call) and last_attr(c_) == "__init__" and len(c_.args) == len(params):
-            for bp, a_ in zip(params, c_.args):
+        if isinstance(c_, ast.Call) and last_attr(c_) == "__init__" and len(c_.args) + len([k for k in c_.keywords if k.arg in params]) == len(params):
+            for bp, a_ in list(zip(params, c_.args)) + [(k.arg, k.value) for k in c_.keywords if k.arg in params]:
                 if isinstance(a_, ast.Name):
                     role_ae[a_.id] = role_be[bp]
     kinds = {}
@@ -472,11 +484,21 @@ def run(model, col, tier):
     # BinaryExpression constructor / accessors keep the order
     be = model.cls("nsl/ast/__init__.py", "BinaryExpression")
     init = be.own_method("__init__")
-    sup = [c for c in ast.walk(init) if isinstance(c, ast.Call) and last_attr(c) == "__init__" and c.args]
+    sup = [c for c in ast.walk(init) if isinstance(c, ast.Call) and last_attr(c) == "__init__" and (c.args or c.keywords)]
     # (which parameter is `left` / `right` is *defined* by its position in this list - see classify(); here: it is a list of two distinct parameters)
     bparams = [a.arg for a in init.args.args[1:]]
-    okorder = any(isinstance(c.args[0], ast.List) and len(c.args[0].elts) == 2 and all(isinstance(e, ast.Name) and e.id in bparams for e in c.args[0].elts)
-                  and len({e.id for e in c.args[0].elts}) == 2 for c in sup)
+
+    def _kids(call):
+        for a_ in list(call.args[:1]) + [k.value for k in call.keywords if k.arg == "children"]:
+            if isinstance(a_, ast.Name):
+                binds = [s.value for s in ast.walk(init) if isinstance(s, ast.Assign) and len(s.targets) == 1 and isinstance(s.targets[0], ast.Name) and s.targets[0].id == a_.id]
+                a_ = binds[0] if len(binds) == 1 else a_
+            if isinstance(a_, ast.List):
+                return a_
+        return None
+
+    okorder = any(_kids(c) is not None and len(_kids(c).elts) == 2 and all(isinstance(e, ast.Name) and e.id in bparams for e in _kids(c).elts)
+                  and len({e.id for e in _kids(c).elts}) == 2 for c in sup)
     col.check(okorder, "R08.2", "nsl/ast/__init__.py::BinaryExpression.__init__ children order",
               "children = [left, right]", "children are not stored as [left, right]", "nsl/ast/__init__.py", init)
     for meth, want in (("GetLeft", 0), ("GetRight", 1)):
